@@ -29,6 +29,7 @@ class Interp:
         self.active = ["top"]
         self.handled_by = None
         self.raised_in = None
+        self.ns_calls = 0
 
     # ------------------------------------------------------------ primitives
     def w(self, s):
@@ -214,7 +215,13 @@ class Interp:
         finally:
             self.active.pop()
 
+    def lib_env(self):
+        return {"tmpl": "lib", "defs": {d["name"]: d for d in self.prog.get("lib", ())}, "caller": None, "loops": []}
+
     def n_call(self, n, env):
+        if n.get("via") == "ns":
+            env = self.lib_env()  # a def of another template, reached through a namespace
+            self.ns_calls += 1
         d = env["defs"][n["d"]]
         arg = None
         if n.get("arg") is not None:
@@ -234,10 +241,13 @@ class Interp:
             self.w(r)
 
     def n_ccall(self, n, env):
-        d = env["defs"][n["d"]]
+        cenv = self.lib_env() if n.get("ns") else env
+        if n.get("ns"):
+            self.ns_calls += 1
+        d = cenv["defs"][n["d"]]
         self.active.append("ccall")
         try:
-            r = self.call_def(d, env, None, (n["body"], env))
+            r = self.call_def(d, cenv, None, (n["body"], env))
         finally:
             self.active.pop()
         self.w(r)
